@@ -411,6 +411,12 @@ def check_crate(fx, rep, crate, cfg):
             if rng.get('kind') == 'aggr' and rng['rv'].get('adt', '').endswith('RangeTo') and \
                     C.trace_field(body, rng['rv']['ops'][0], WC) == pos_field and C.trace_field(body, tr['args'][0], WC) == buf_field:
                 ok_slice = True
+            # `&buffer[0..pos]` is the same prefix
+            if rng.get('kind') == 'aggr' and rng['rv'].get('adt', '').endswith('::Range') and len(rng['rv'].get('ops') or []) == 2:
+                lo = body.trace(rng['rv']['ops'][0])
+                if lo.get('kind') == 'const' and lo.get('val') == 0 and C.trace_field(body, rng['rv']['ops'][1], WC) == pos_field and \
+                        C.trace_field(body, tr['args'][0], WC) == buf_field:
+                    ok_slice = True
         rep.check(ok_one and ok_slice, 'R02.4', '%s|single-write-of-prefix|%s' % (fk, cfg), C.where(body, wb),
                   'one transport write per flush, of &buffer[..pos]',
                   'flush does not hand exactly &buffer[..pos] to the transport in a single write',
